@@ -1,5 +1,5 @@
 #!/bin/sh
-# tools/seed_all.sh [parallelism] : tools/seed_one.sh for every directory under seeded/
+# tools/seed_all.sh [parallelism] [pattern] : tools/seed_one.sh for every directory under seeded/ (whose name matches pattern)
 V=$(cd "$(dirname "$0")/.." && pwd)
 cd $V
-ls seeded | xargs -P ${1:-3} -I{} tools/seed_one.sh {}
+ls seeded | grep -e "${2:-.}" | xargs -P ${1:-3} -I{} tools/seed_one.sh {}
